@@ -32,7 +32,8 @@ CONSTANTS Keys, Clients, MaxSize, Costs, TTLs, QCap, BatchMax, MaxEnt, MaxTime,
           FixD2,          \* Wait: one wake-up per waiter (per-marker channel), observes cancel
           FixD6,          \* REMOVE event is not ignored for an entry already removed by eviction/expiry
           FixD7,          \* removed flag set after the deadline re-check; aborted expiry re-schedules
-          FixD16          \* policy total compared as a signed value
+          FixD16,         \* policy total compared as a signed value
+          FixD10a         \* writers give up their blocking send once the store is cancelled
 
 VARIABLES map, ent, nextId, queue, batch, hadWait, mpc, mpend, evicting, mnew,
           tpc, tpend, tnow, plock, wsize, now, cnow,
@@ -142,6 +143,12 @@ Send(c) ==
   /\ UNCHANGED <<map, ent, nextId, MaintV, TickV, plock, wsize, now, cnow, cop, closed, cancelled,
                  notif, nreason, left, need, applied, nextTag, bad>>
 
+\* repaired (D10a): a writer parked on the full queue returns when the store is cancelled
+SendCancelled(c) ==
+  /\ FixD10a /\ cpc[c] = "send" /\ cancelled
+  /\ cpc' = [cpc EXCEPT ![c] = "idle"] /\ cnt' = [cnt EXCEPT ![c] = @ + 1]
+  /\ UNCHANGED <<map, ent, nextId, queue, MaintV, TickV, plock, wsize, now, cnow, cop, closed, cancelled, Ghosts>>
+
 (* Client: Get (shard read lock).  Three-way deadline test against the cached clock (M10). *)
 Get(c, k) ==
   /\ CanStart(c, "get")
@@ -161,7 +168,7 @@ Get(c, k) ==
 WaitSend(c) ==
   /\ CanStart(c, "wait") /\ Len(queue) < QCap
   /\ ~(FixD2 /\ cancelled)
-  /\ queue' = Append(queue, [code |-> "WAIT", id |-> 0, delta |-> 0, rs |-> FALSE, tag |-> c])
+  /\ queue' = Append(queue, [code |-> "WAIT", id |-> 0, delta |-> 0, rs |-> FALSE, tag |-> <<c, cnt[c]>>])
   /\ need' = [need EXCEPT ![c] = sentDone \ applied]
   /\ cpc' = [cpc EXCEPT ![c] = "waitrecv"]
   /\ UNCHANGED <<map, ent, nextId, MaintV, TickV, plock, wsize, now, cnow, cop, cnt, closed, cancelled,
@@ -189,9 +196,10 @@ WakeShared(c) ==
 \* repaired: the maintenance loop closes the channel of every marker of the batch
 WakeOwn ==
   /\ FixD2 /\ mpc = "wake"
-  /\ cpc' = [c \in Clients |-> IF c \in hadWait THEN "idle" ELSE cpc[c]]
-  /\ cnt' = [c \in Clients |-> IF c \in hadWait THEN cnt[c] + 1 ELSE cnt[c]]
-  /\ bad' = IF \A c \in hadWait : need[c] \subseteq applied THEN bad ELSE bad \cup {"C20_barrier"}
+  /\ LET woken == {c \in Clients : cpc[c] = "waitrecv" /\ <<c, cnt[c]>> \in hadWait} IN
+     /\ cpc' = [c \in Clients |-> IF c \in woken THEN "idle" ELSE cpc[c]]
+     /\ cnt' = [c \in Clients |-> IF c \in woken THEN cnt[c] + 1 ELSE cnt[c]]
+     /\ bad' = IF \A c \in woken : need[c] \subseteq applied THEN bad ELSE bad \cup {"C20_barrier"}
   /\ mpc' = "unlock" /\ hadWait' = {}
   /\ UNCHANGED <<map, ent, nextId, mnew, queue, batch, mpend, evicting, TickV, plock, wsize, now, cnow, cop, closed, cancelled,
                  notif, nreason, left, need, applied, sentDone, nextTag>>
@@ -404,7 +412,7 @@ Next ==
   \/ \E c \in Clients, k \in Keys, cost \in Costs, ttl \in TTLs : SetMap(c, k, cost, ttl)
   \/ \E c \in Clients, k \in Keys, cost \in Costs : SetRefused(c, k, cost)
   \/ \E c \in Clients, k \in Keys : DelMap(c, k) \/ Get(c, k)
-  \/ \E c \in Clients : Send(c) \/ WaitSend(c) \/ WakeShared(c) \/ WaitCancelled(c) \/ CloseShards(c) \/ CloseCancel(c)
+  \/ \E c \in Clients : Send(c) \/ SendCancelled(c) \/ WaitSend(c) \/ WakeShared(c) \/ WaitCancelled(c) \/ CloseShards(c) \/ CloseCancel(c)
   \/ WakeOwn
   \/ \E n \in 1..BatchMax : TakeBatch(n)
   \/ MExit \/ MLock \/ ApplyHead \/ EvDone \/ EndBatch \/ MUnlock
